@@ -7,9 +7,10 @@ from vf import props, texts
 props.load_plans()
 
 ALL = ['C%02d' % i for i in range(1, 21)]
+READY = set(open(os.path.join(ROOT, 'vf', 'ready.txt')).read().split())
 checks = []
 for pid in ALL:
-    if pid not in props.PLANS or pid in texts.NOT_CLAIMED:
+    if pid not in props.PLANS or pid in texts.NOT_CLAIMED or pid not in READY or pid not in texts.TEXT:
         continue
     t = texts.TEXT[pid]
     checks.append(dict(property_id=pid,
